@@ -1760,6 +1760,9 @@ class ListBox(Widget, WidgetContainerMixin):
             if not rows:
                 continue
 
+            if row_offset + rows <= 0:  # scrolled completely off the top edge: cannot take the focus
+                continue
+
             # try selecting this widget
             pref_row = min(maxrow - row_offset - 1, rows - 1)
 
@@ -1818,6 +1821,9 @@ class ListBox(Widget, WidgetContainerMixin):
             if not rows:  # never focus a 0-height widget
                 continue
 
+            if row_offset + rows <= 0:  # scrolled completely off the top edge
+                continue
+
             # if completely within snap region, adjust row_offset
             if row_offset >= maxrow:
                 snap_rows -= snap_rows + maxrow - row_offset - 1
@@ -1827,7 +1833,7 @@ class ListBox(Widget, WidgetContainerMixin):
             return None
 
         # no choices available, just shift current one
-        self.shift_focus((maxcol, maxrow), max(1 - focus_rows, row_offset))
+        self.shift_focus((maxcol, maxrow), min(maxrow - 1, max(1 - focus_rows, row_offset)))
 
         # final check for pathological case where we may fall short
         middle, _top, bottom = self.calculate_visible((maxcol, maxrow), True)
